@@ -292,6 +292,15 @@ func (c *Ctx) Violation(sig string, detail map[string]any, candidates ...string)
 	}
 }
 
+// Trace prints the inputs of a case when it is being replayed (before the
+// library is called, so that they are on record even if the process dies).
+func (c *Ctx) Trace(format string, args ...any) {
+	if c.replayMode {
+		fmt.Printf("  "+format+"\n", args...)
+		os.Stdout.Sync()
+	}
+}
+
 func (c *Ctx) NViolations() int {
 	c.mu.Lock()
 	defer c.mu.Unlock()
